@@ -18,6 +18,7 @@ claimed = {
  "C17": ("window frames (WindowFrameSet and its two helpers: one frame per row with the bounds the ROWS clause prescribes, whole partition only without ORDER BY or for UNBOUNDED..UNBOUNDED) and NTILE (closed form of the tile of every row, for all partition sizes and tile counts) are proved; sort-key equivalence/ordering lemmas are shared with C07; ranking, FIRST/LAST/NTH_VALUE, LAG/LEAD and aggregates OVER are not yet under contract", "4 C17"),
  "C20": ("cacheViewFromFile proved against a ghost protocol: a table already cached is served from the cache without touching the file unless an update is requested on a copy loaded for reading (the documented reload, which disposes the old copy first and loads once under an update handler); a miss loads exactly once; every handler opened on a failing path is closed; cached FileInfo.ForUpdate agrees with the handler kind. ViewMap (sync.Map) operations and ReleaseResources clearing the cache at COMMIT/ROLLBACK are assumed contracts; cross-process interleavings are outside", "4 C20"),
  "C04": ("partial: SortValue/SortValues.EquivalentTo and the sort-key lemmas (shared with C07), the GROUP BY bucket assembly worker (every bucket's rows are exactly the indices recorded for its key, in order) and the coercion ladder behind value equality (C06) are proved; SerializeKey / SerializeComparisonKeys / Distinguish build strings (uninterpreted in this engine) and the aggregate functions are not under contract", "4 C04"),
+ "C18": ("the scanner is total: every Scanner method keeps 0 <= srcPos <= len(src), never indexes outside the text (bounds/nil obligations), reports EOF only at the end of the text and consumes at least one rune for every other token; every loop of the scanner and the recursion of Scan over comments carry a termination measure (len(src) - srcPos) that is proved to decrease; the line and column a token (and hence a syntax error) carries lie inside the text. The goyacc-generated driver (parser.go) and the print/re-parse round trip (String() of ast.go: strings are uninterpreted in this engine) are outside", "4 C18"),
  "C16": ("Cursor.Fetch/Close/IsOpen/IsInRange/Count/Pointer proved against an abstract (snapshot, position) view for all positions and offsets, with machine integer arithmetic modelled exactly", "4 C16"),
 }
 na = {
